@@ -35,6 +35,28 @@ def trees(depth):
     return d1 + d2 + d3
 
 
+SHARED_LEAVES = ["a = 1", "a < b", "a IS NULL", "a NOT IN (1, NULL)", "a BETWEEN 1 AND b", "s LIKE 'a%'", "s IN ('a', NULL)"]
+
+
+def shared_shapes():
+    """trees in which one sub-expression occurs in both branches: the shapes factoring / absorption rewrites fire on"""
+    out = []
+    L = SHARED_LEAVES
+    for x in L:
+        for y in L:
+            if x == y:
+                continue
+            out += ['((%s) AND (%s)) OR (%s)' % (x, y, y), '(%s) OR ((%s) AND (%s))' % (y, x, y), '((%s) OR (%s)) AND (%s)' % (x, y, y),
+                    '((%s) AND (%s)) OR ((%s) AND (%s))' % (x, y, x, y), 'NOT (((%s) AND (%s)) OR (%s))' % (x, y, y)]
+            for z in L:
+                if z in (x, y):
+                    continue
+                out += ['((%s) AND (%s)) OR ((%s) AND (%s))' % (x, y, y, z), '((%s) OR (%s)) AND ((%s) OR (%s))' % (x, y, y, z),
+                        '(((%s) AND (%s)) OR (%s)) AND (%s)' % (x, y, y, z), '((%s) AND (%s) AND (%s)) OR (%s)' % (x, y, z, y),
+                        '((%s) AND (%s)) OR ((%s) AND (%s)) OR (%s)' % (x, y, y, z, y)]
+    return out
+
+
 def const_exprs():
     lits = ['TRUE', 'FALSE', 'NULL']
     out = []
@@ -90,6 +112,13 @@ def run(rep):
             st.extend(stmts_for(e, ['where', 'value'] if deep else modes))
         for c in chunks(st, 150):
             units.append({'db': db, 'stmts': c})
+    # shared sub-expressions (factoring / absorption rewrites), both layouts
+    sh = []
+    for e in shared_shapes():
+        sh.append({'sql': 'SELECT id FROM t WHERE %s' % e, 'tag': 'shared-where'})
+    for dbname, db in dbs:
+        for c in chunks(sh, 150):
+            units.append({'db': db, 'stmts': c})
     # constant-only variants (ConstantFolding path)
     cst = []
     for e in const_exprs():
@@ -103,7 +132,7 @@ def run(rep):
     configs = [{'name': 'compile-default', 'env': {}}, {'name': 'compile-off', 'env': {'QE_COMPILE': '0'}}]
     rep.rule = ('every boolean tree of depth <= %d over %d leaves (comparison, IS [NOT] NULL, [NOT] IN with NULL, [NOT] BETWEEN, '
                 '[NOT] LIKE; AND/OR/NOT) evaluated over the 27-row universal table {NULL,1,2}^2 x {NULL,a,ab} in WHERE / value / HAVING / '
-                'LEFT JOIN ON / CASE positions, memory and Parquet, QE_COMPILE default and 0; plus all TRUE/FALSE/NULL literal '
+                'LEFT JOIN ON / CASE positions, memory and Parquet, QE_COMPILE default and 0; plus 10 shapes with a sub-expression shared between branches ((X AND Y) OR Y, (X AND Y) OR (Y AND Z), ...) over all ordered choices of 7 leaves; plus all TRUE/FALSE/NULL literal '
                 'assignments of depth-2 shapes; oracle SQLite 3.40; non-trivial = reference answer non-empty' % (2 if quick else 3, len(LEAVES)))
     rep.extra['trees'] = len(tr)
     rep.assumptions = ['SQLite 3.40 implements Kleene logic for this alphabet (PRAGMA case_sensitive_like=ON)']
